@@ -281,12 +281,13 @@ def run(cfg, cases, seed=1, limit=300, only=None, keep_src=None, priority=(), ho
             continue
         stats['compared'] += 1
         # Debug against the STANDARD derive on a mirror type (items without any skip): no model involved
-        for a, b in (('I-debug', 'I-stddebug'), ('I-debugp', 'I-stddebugp')):
-            if b in io:
-                stats['std_debug_compared'] = stats.get('std_debug_compared', 0) + len(io[b])
+        for a, b, tg in (('I-debug', 'I-stddebug', 'debug'), ('I-debugp', 'I-stddebugp', 'debugp'), ('I-eq', 'I-stdeq', 'eq'), ('I-cmp', 'I-stdcmp', 'cmp'),
+                         ('I-pcmp', 'I-stdpcmp', 'pcmp')):      # (not the hasher input: std omits the discriminant of single-variant enums; C08 does not ask for std's bytes)
+            if b in io and a in io:
+                stats['std_derive_compared'] = stats.get('std_derive_compared', 0) + len(io[b])
                 if io[a] != io[b]:
                     k = next((j for j in range(min(len(io[a]), len(io[b]))) if io[a][j] != io[b][j]), 0)
-                    problems.append(dict(kind='behaviour', against='R', what='the standard derive(Debug) on a mirror type', tag='debug', cfg=cfg, case=cid, src=item_txt(pit),
+                    problems.append(dict(kind='behaviour', against='R', what='the standard derive on a mirror type', tag=tg, cfg=cfg, case=cid, src=item_txt(pit),
                                          value=vals[k] if k < len(vals) else None, values=vals, implementation=io[a][k] if k < len(io[a]) else None, model=io[b][k] if k < len(io[b]) else None))
         for tag in TAGS:
             il = io.get('I-' + tag)
